@@ -34,9 +34,12 @@ PRELUDE = '''package PKG
 
 import (
 	"bytes"
+	"cmp"
 	"errors"
 	"fmt"
+	"maps"
 	"math"
+	"slices"
 	"strings"
 	"time"
 	"unicode"
@@ -44,6 +47,9 @@ import (
 
 var (
 	_ = bytes.Equal
+	_ = cmp.Compare[int]
+	_ = maps.Equal[map[int]int, map[int]int]
+	_ = slices.Equal[[]int]
 	_ = errors.New
 	_ = math.NaN
 	_ = strings.Index
